@@ -24,6 +24,9 @@ pub enum COp {
     Reserve(usize),
     Len,
     Iter,
+    /// pseudo-operation: an iterator yielded this key (a read of the key somewhere between the
+    /// iterator's creation and the yield)
+    Yielded(u32),
     Retain(&'static str, bool),
     Clear,
     /// dump the chain of tables reachable from the current table (while every other thread is
@@ -48,12 +51,12 @@ pub enum COp {
 impl COp {
     pub fn key(&self) -> Option<u32> {
         match self {
-            COp::Ins(k, ..) | COp::TryIns(k, ..) | COp::Get(k) | COp::GetKv(k) | COp::Has(k) | COp::Rm(k) | COp::Rme(k) | COp::CipInc(k, _) | COp::CipRm(k) | COp::CipPanic(k) | COp::CondRm(k, _) | COp::ForceRm(k) | COp::ClearRm(k) | COp::ClearRmOpt(k) => Some(*k),
+            COp::Ins(k, ..) | COp::TryIns(k, ..) | COp::Get(k) | COp::GetKv(k) | COp::Yielded(k) | COp::Has(k) | COp::Rm(k) | COp::Rme(k) | COp::CipInc(k, _) | COp::CipRm(k) | COp::CipPanic(k) | COp::CondRm(k, _) | COp::ForceRm(k) | COp::ClearRm(k) | COp::ClearRmOpt(k) => Some(*k),
             _ => None,
         }
     }
     pub fn is_read(&self) -> bool {
-        matches!(self, COp::Get(_) | COp::GetKv(_) | COp::Has(_) | COp::Len | COp::Iter)
+        matches!(self, COp::Get(_) | COp::GetKv(_) | COp::Yielded(_) | COp::Has(_) | COp::Len | COp::Iter)
     }
     pub fn text(&self) -> String {
         match self {
@@ -61,6 +64,7 @@ impl COp {
             COp::TryIns(k, v, o) => format!("tryins {} {} {}", k, v, o),
             COp::Get(k) => format!("get {}", k),
             COp::GetKv(k) => format!("getkv {}", k),
+            COp::Yielded(k) => format!("iterator-yield {}", k),
             COp::Has(k) => format!("has {}", k),
             COp::Rm(k) => format!("rm {}", k),
             COp::Rme(k) => format!("rme {}", k),
@@ -94,6 +98,8 @@ pub struct Call {
     pub closure_calls: u32,
     /// for iter: (key, payload, origin) yielded, in order
     pub yielded: Vec<(u32, u64, u32)>,
+    /// for iter: the call-clock time of each yield
+    pub yield_at: Vec<usize>,
     pub trace_from: usize,
     pub trace_to: usize,
 }
@@ -131,6 +137,9 @@ type M = HashMap<K, V, TableHasher>;
 
 /// ticks at every invocation and every response of a scheduled call
 static CALL_CLOCK: std::sync::atomic::AtomicU64 = std::sync::atomic::AtomicU64::new(0);
+thread_local! {
+    static YIELD_AT: std::cell::RefCell<Vec<usize>> = const { std::cell::RefCell::new(Vec::new()) };
+}
 
 fn fmt_v(v: Option<&V>) -> String {
     match v {
@@ -232,6 +241,7 @@ fn exec(m: &M, op: &COp, pin: bool, yielded: &mut Vec<(u32, u64, u32)>, closure_
             let g = m.guard();
             for (k, v) in m.iter(&g) {
                 yielded.push((k.id, v.payload, v.origin));
+                YIELD_AT.with(|y| y.borrow_mut().push(CALL_CLOCK.fetch_add(1, std::sync::atomic::Ordering::SeqCst) as usize));
             }
             format!("{}", yielded.len())
         }
@@ -294,7 +304,7 @@ fn exec(m: &M, op: &COp, pin: bool, yielded: &mut Vec<(u32, u64, u32)>, closure_
             with!(|mm, g| mm.clear(&g), |p| p.clear());
             "ok".into()
         }
-        COp::CondRm(..) | COp::ForceRm(..) | COp::ClearRm(..) | COp::ClearRmOpt(..) => "-".into(),
+        COp::Yielded(..) | COp::CondRm(..) | COp::ForceRm(..) | COp::ClearRm(..) | COp::ClearRmOpt(..) => "-".into(),
         COp::CipPanic(k) => {
             let key = K::new(*k, 0);
             let mut calls = 0u32;
@@ -391,10 +401,12 @@ pub fn run_conc(case: &ConcCase, record_all: bool, budget: usize) -> ConcResult 
                     let inv = CALL_CLOCK.fetch_add(1, std::sync::atomic::Ordering::SeqCst) as usize;
                     let mut yielded = vec![];
                     let mut cc = 0u32;
+                    YIELD_AT.with(|y| y.borrow_mut().clear());
                     let result = exec(&map2, op, pin, &mut yielded, &mut cc);
                     let resp = CALL_CLOCK.fetch_add(1, std::sync::atomic::Ordering::SeqCst) as usize;
                     let trace_to = s3.trace_len();
-                    calls2.lock().unwrap().push(Call { tid, idx, op: op.clone(), inv, resp, result, closure_calls: cc, yielded, trace_from, trace_to });
+                    let yield_at = YIELD_AT.with(|y| std::mem::take(&mut *y.borrow_mut()));
+                    calls2.lock().unwrap().push(Call { tid, idx, op: op.clone(), inv, resp, result, closure_calls: cc, yielded, yield_at, trace_from, trace_to });
                 }
             });
         }));
@@ -600,7 +612,7 @@ fn spec_step(st: KState, c: &Call) -> Option<KState> {
             None => (res == "none").then(|| KState(Some((*v, *o)))),
             Some((p, oo)) => (res == format!("exists {} {}", p, oo)).then_some(st),
         },
-        COp::Get(_) | COp::GetKv(_) => (res == cur).then_some(st),
+        COp::Get(_) | COp::GetKv(_) | COp::Yielded(_) => (res == cur).then_some(st),
         COp::Has(_) => (res == st.0.is_some().to_string()).then_some(st),
         COp::Rm(_) | COp::Rme(_) => (res == cur).then_some(KState(None)),
         COp::CipInc(_, o) => match st.0 {
@@ -723,7 +735,7 @@ fn call_txt(c: &Call) -> Option<String> {
     let op = match &c.op {
         COp::Ins(_, v, o) => format!("ins.{}.{}", v, o),
         COp::TryIns(_, v, o) => format!("tryins.{}.{}", v, o),
-        COp::Get(_) | COp::GetKv(_) => "get".into(),
+        COp::Get(_) | COp::GetKv(_) | COp::Yielded(_) => "get".into(),
         COp::Has(_) => "has".into(),
         COp::Rm(_) | COp::Rme(_) => "rm".into(),
         COp::CipInc(_, o) => format!("cipinc.{}", o),
@@ -803,6 +815,17 @@ pub fn judge(case: &ConcCase, r: &ConcResult) -> Verdicts {
             }
         }
     }
+    // C07 with C01: an iterator that yields (k, v) has read k = v at some moment between its
+    // creation and the yield; that read must fit into the same sequential order as every other
+    // operation on k (a later `get` that misses a key an iterator already showed does not)
+    for c in &r.calls {
+        if matches!(c.op, COp::Iter) {
+            for (i, y) in c.yielded.iter().enumerate() {
+                let at = c.yield_at.get(i).copied().unwrap_or(c.resp);
+                all_calls.push(Call { op: COp::Yielded(y.0), result: format!("some {} {}", y.1, y.2), resp: at, yielded: vec![], yield_at: vec![], ..c.clone() });
+            }
+        }
+    }
     let r_calls = &all_calls;
     let mut keys_checked = 0;
     if finished && !whole_map_writes {
@@ -830,7 +853,11 @@ pub fn judge(case: &ConcCase, r: &ConcResult) -> Verdicts {
                 }
                 None => {
                     let hist: Vec<String> = cs.iter().map(|c| format!("t{}[{}..{}] {} -> {}", c.tid, c.inv, c.resp, c.op.text(), c.result)).collect();
-                    let tag = if cs.iter().any(|c| matches!(c.op, COp::ClearRm(..) | COp::ClearRmOpt(..))) {
+                    let real: Vec<Call> = cs.iter().filter(|c| !matches!(c.op, COp::Yielded(_))).cloned().collect();
+                    let tag = if real.len() < cs.len() && linearize(&real, init, Some(fin)).is_some() {
+                        // the single-key operations alone are fine: it is the iterator's view that does not fit
+                        "iter-lin"
+                    } else if cs.iter().any(|c| matches!(c.op, COp::ClearRm(..) | COp::ClearRmOpt(..))) {
                         "clear"
                     } else if cs.iter().any(|c| matches!(c.op, COp::CondRm(..) | COp::ForceRm(..))) {
                         "retain"
